@@ -67,6 +67,26 @@ SEEDS = {
  "C17-C": ("update_discretizer recomputes labels_per_values only for mode='group'", "a 'replace' edit: labels, summary and the reloaded object disagree"),
  "C18-C": ("all features without a provided order share one GroupedList in ChainedDiscretizer.__init__", "two or more chained features without values_orders"),
  "C19-C": ("string check in _transform_quantitative uses infer_dtype in ('string','mixed')", "integer-valued quantitative column (no NaN) receiving a string at transform / in X_dev: UFuncTypeError"),
+ # round 4: a fourth change per property, again independent of the checks (written after round 3's improvements)
+ "C01-D": ("train minimum-frequency test uses > instead of >=", "best grouping with a group sitting exactly on min_freq_mod"),
+ "C02-D": ("BinaryCarver._printer rounds the frequency column to 2 decimals", "a group whose frequency is less than 0.005 below a min_freq_mod on the 0.01 grid"),
+ "C03-D": ("GroupedList built from an ndarray goes through numpy.unique (sorts)", "ordinal ranking handed over as a numpy array"),
+ "C04-D": ("_get_labels_per_values updates the cached label dict in place", "output_dtype='float' object on which summary() is called before transform"),
+ "C05-D": ("missing values detected with numpy.isnan", "quantitative column of object dtype (frames built from records, a None): TypeError"),
+ "C06-D": ("dev frequency test returns a numpy.bool_ that ends in _history", "carver fitted with X_dev where a tested combination has a modality below min_freq_mod on dev: json.dumps(to_json()) raises"),
+ "C07-D": ("_check_new_values replaces unseen values over the whole frame", "unseen value of a feature with a default group that is also present in another column"),
+ "C08-D": ("ContinuousCarver._aggregator loses fill_value=[]", "ContinuousCarver with X_dev lacking a modality left alone in a train-viable group: TypeError"),
+ "C09-D": ("Pool branch of ContinuousDiscretizer.fit does not pass min_freq", "n_jobs>=2 and min_freq whose inverse rounds down"),
+ "C10-D": ("fit_feature returns the order only; results paired by position", "n_jobs>1 with imap_unordered completing out of submission order"),
+ "C11-D": ("_transform_quantitative drops index=X.index", "non-default index"),
+ "C12-D": ("_cast_features renames instead of duplicating when every feature has one casted column", "every raw feature kept by exactly one one-vs-rest carver"),
+ "C13-D": ("GroupedList.sort keeps keys that are instances of (int, float) only", "second sort() of a list whose leaders became numpy.int64 through a first sort()"),
+ "C14-D": ("pearson_filter passes a misnamed keyword: filters on Spearman's rho", "quantitative_filters=[pearson_filter], thresh_corr<1 and a pair on different sides of the threshold for r and rho"),
+ "C15-D": ("iqr_measure uses a half-open interval", "user measure list [iqr_measure, kruskal_measure] with thresh_iqr<1 and an integer feature with mass on a Tukey fence: negation changes the selection"),
+ "C16-D": ("summary() hides the default sentinel by label instead of by value", "qualitative feature with rare categories, string labels, __OTHER__ leader of its group"),
+ "C17-D": ("numpy.select guard requires more than one mask", "edits merging a quantitative feature down to a single group: raw floats returned"),
+ "C18-D": ("ChainedDiscretizer.fit writes regrouped values back through a fresh RangeIndex Series", "training frame whose index is not 0..n-1"),
+ "C19-D": ("MulticlassCarver converts y to str before the generic target checks", "3-class target holding a NaN / None (no dev set): accepted"),
 }
 
 
